@@ -38,7 +38,7 @@ struct Case {
     std::vector<unsigned> slices;
     unsigned reenter = 0; // bit0: data handlers call RecvData, bit1: semaphore handler calls GetSemaphore, bit2: data handler sends
     unsigned readmask = 7; // channels whose CMDi the DSP handler reads and echoes; the others stay full after their first send
-    unsigned polls = 0;    // bit0: the DSP handler reads CMDi only when the status register shows it ready; bit1: the host reads only
+    unsigned polls = 0;    // bit2: the APBP interrupt switches the register context (ic0 = 1, handler ends in retic); bit0: the DSP handler reads CMDi only when the status register shows it ready; bit1: the host reads only
                            // after RecvDataIsReady (and its callbacks do not read)
 };
 
@@ -69,7 +69,7 @@ Case decode(const std::string& text) {
         else if (t[0] == "readmask" && t.size() >= 2)
             c.readmask = (unsigned)vf::unhex(t[1]) & 7;
         else if (t[0] == "polls" && t.size() >= 2)
-            c.polls = (unsigned)vf::unhex(t[1]) & 3;
+            c.polls = (unsigned)vf::unhex(t[1]) & 7;
         else if (t[0] == "slices")
             for (size_t i = 1; i < t.size(); ++i)
                 c.slices.push_back((unsigned)vf::unhex(t[i]));
@@ -89,7 +89,7 @@ Case decode(const std::string& text) {
 
 const uint16_t kCounter = 0x2000, kLastCmd = 0x2100;
 
-void load_program(Teakra::Teakra& t, unsigned readmask, bool dsp_polls) {
+void load_program(Teakra::Teakra& t, unsigned readmask, bool dsp_polls, bool ctx_switch) {
     std::vector<uint16_t> main = {W("eint()", {}), W("brr(RelAddr7,CondValue)", {0x7F, 0})};
     for (size_t i = 0; i < main.size(); ++i)
         t.ProgramWrite(0x0100 + (uint32_t)i, main[i]);
@@ -138,7 +138,7 @@ void load_program(Teakra::Teakra& t, unsigned readmask, bool dsp_polls) {
     h.push_back(W("load_page(Imm8)", {(long)(kCounter >> 8)}));
     h.push_back(W("alb(AlbOp,Imm16,MemImm8)", {3, -1, (long)(kCounter & 0xFF)}));
     h.push_back(1);
-    h.push_back(W("reti(CondValue)", {0}));
+    h.push_back(ctx_switch ? W("retic(CondValue)", {0}) : W("reti(CondValue)", {0}));
     for (size_t i = 0; i < h.size(); ++i)
         t.ProgramWrite(0x0400 + (uint32_t)i, h[i]);
 }
@@ -182,13 +182,14 @@ vf::Result check(const Case& c) {
     static Teakra::Teakra* instance = new Teakra::Teakra(Teakra::UserConfig{}); // construction is slow under TSan: one per process
     Teakra::Teakra& t = *instance;
     t.Reset();
-    load_program(t, c.readmask, c.polls & 1);
+    load_program(t, c.readmask, c.polls & 1, (c.polls & 4) != 0);
     const bool host_polls = (c.polls & 2) != 0;
     t.MMIOWrite(0x206, 0x4000); // IRQ 14 (APBP) -> int0
     auto& regs = t.GetRegisterState();
     regs.pc = 0x0100;
     regs.sp = 0x1800;
     regs.im[0] = 1;
+    regs.ic[0] = (c.polls & 4) ? 1 : 0; // the service routine runs in the other register context and returns with retic
     regs.sat = regs.sata = 1;
 
     // what the host observes (host thread + callbacks on the DSP thread)
@@ -410,6 +411,8 @@ vf::Result check(const Case& c) {
         vf::klass("DSP handler polls the ready bits before reading");
     if (c.polls & 2)
         vf::klass("host reads only after RecvDataIsReady");
+    if (c.polls & 4)
+        vf::klass("service routine with context switch (ic0 = 1, retic)");
     vf::note(vf::hash_str(encode(c)), overlap >= 3 && sends >= 1);
     if (overlap >= 10 && vf::ctx().samples.size() < 5)
         vf::sample(what + "; slices " + std::to_string(c.slices.size()));
@@ -441,7 +444,7 @@ int main(int argc, char** argv) {
         using namespace rc;
         return gen::map(gen::tuple(gen::container<std::vector<Op>>(genOp()), gen::container<std::vector<unsigned>>(gen::element<unsigned>(1, 1, 2, 3, 7, 16, 64, 200, 1000)),
                                    vf::range<unsigned>(0, 8), gen::weightedOneOf<unsigned>({{1, gen::just(7u)}, {1, vf::range<unsigned>(0, 8)}}),
-                                   vf::range<unsigned>(0, 4)),
+                                   vf::range<unsigned>(0, 8)),
                         [](std::tuple<std::vector<Op>, std::vector<unsigned>, unsigned, unsigned, unsigned> t) {
                             Case c;
                             c.ops = std::get<0>(t);
@@ -454,7 +457,7 @@ int main(int argc, char** argv) {
                             c.slices = std::get<1>(t);
                             c.reenter = std::get<2>(t);
                             c.readmask = std::get<3>(t) & 7;
-                            c.polls = std::get<4>(t) & 3;
+                            c.polls = std::get<4>(t) & 7;
                             return c;
                         });
     };
